@@ -26,6 +26,8 @@ RDM_DESC = {
     'ralt': lambda r: 'u%d' % (int(r) % 2),   # duplicates whose members are NOT adjacent: u0,u1,u0,u1
     'rbig': lambda r: 100000 + int(r),       # six-digit ids: distinct values closer than 1e-5 relative
     'rneg': lambda r: int(r) - 2,            # signed integer codes: -2,-1,0,1,...
+    'rsub': lambda r: 'sub%02d' % (int(r) // 2),   # string groups of two (many groups for large stacks)
+    'rtime': lambda r: 1700000000.0 + 600.0 * (int(r) // 2),   # float groups of two, large relative to their spacing
 }
 PAT_DESC = {
     'cid': lambda c: int(c),
